@@ -27,7 +27,7 @@ Ev == Rec[l]
 
 Init == l = 1 /\ snap = [none |-> TRUE] /\ kind = "none"
 Next == /\ l <= Len(Rec)
-        /\ Ev.ev \in {"FInit", "Snap", "Closed", "Dropped", "Op", "Est", "Chain", "Hammer", "Locks"}
+        /\ Ev.ev \in {"FInit", "Snap", "Closed", "Dropped", "Op", "Est", "Chain", "Hammer", "Locks", "Quiesce", "Foreign"}
         /\ l' = l + 1 /\ snap' = Ev /\ kind' = Ev.ev
 Spec == Init /\ [][Next]_<<l, snap, kind>>
 
@@ -94,6 +94,16 @@ FHammer == (kind = "Hammer") =>
     /\ snap.hit + snap.miss = snap.lookups
     /\ snap.hit = snap.found
     /\ snap.kept + snap.dropped + snap.ring_after = snap.lookups + snap.ring_before
+
+\* C06 under real parallelism: after a burst of removes and inserts of the same keys from different threads, at
+\* quiescence, store and policy agree (remove's store half and its Delete marker are ordered as Cache.tla's RemStore /
+\* RemSend / PDel say, whatever inserts interleave)
+FQuiesce == (kind = "Quiesce") =>
+    /\ { e.i : e \in Range(snap.store) } = { c[1] : c \in Range(snap.costs) }
+    /\ snap.used = SumSeq(snap.costs, 1)
+    /\ snap.len = Len(snap.store)
+\* C02 / C18 under real parallelism: get_mut of a key never hands out the entry of the key it shares its index with
+FForeign == (kind = "Foreign") => snap.foreign = 0
 
 Accepted ==
     IF TLCGet("stats").diameter - 1 = Len(Rec) THEN TRUE
